@@ -392,8 +392,11 @@ class Scheduler:
                 key = id(frame)
                 prev = task.last_op.get(key)
                 task.last_op[key] = op
-                # an asynchronous exception can only surface at an eval-breaker check
-                can_raise = op in SAFE or (prev is not None and prev in _CALL_OPS)
+                # Asynchronous exceptions are never raised out of the trace callback (CPython 3.12.1
+                # crashed when we did, in generator / closure frames): a pending interrupt is
+                # delivered at the task's next model-primitive operation instead (Thread.start,
+                # lock acquire, Condition.wait, Thread.join), which is ordinary Python code.
+                can_raise = False
                 try:
                     sched.yield_point(can_raise=can_raise, engine=True)
                 except SchedAbort:
@@ -718,7 +721,8 @@ class MThread:
         self._task = t
         s._start_real(t)
         t.state = "runnable"
-        s.yield_point(can_raise=False)
+        # an interrupt may surface while start() waits for the new thread to come up
+        s.yield_point(can_raise=True)
 
     def join(self, timeout=None):
         s = sched()
